@@ -1,10 +1,10 @@
 CONSTANTS
-  N = 3
+  N = 2
   M = 3
   MinNP = 1
   MaxNP = 2
-  SamePart = TRUE
-  MaskStride = 4
+  SamePart = FALSE
+  MaskStride = 2
   MaskOff = 0
 INIT Init
 NEXT Next
